@@ -26,11 +26,10 @@ var literalSegs = []string{"foo", "bar", "v1", "items", "x", "foo-bar", "foo_bar
 var scalarKinds = []string{"str", "i32", "i64", "u32", "u64", "f32", "f64", "bool", "bytes", "dec", "date", "ts", "id62", "uuid", "key", "any"}
 
 // scalars that may carry list rules, and which
-// (timestamp and oneof fields can carry list rules in j5s too, but those do not reach the client
-// API on the current tree - a schema-reader matter outside this property's statement - so the
-// generator leaves them unflagged; date and decimal rules arrive and are ignored by buildListRequest)
-var canFilter = map[string]bool{"i32": true, "i64": true, "u32": true, "u64": true, "f32": true, "f64": true, "bool": true, "id62": true, "uuid": true, "key": true, "date": true, "dec": true}
-var canSort = map[string]bool{"i32": true, "i64": true, "u32": true, "u64": true, "f32": true, "f64": true, "dec": true}
+// (date and decimal rules arrive and are ignored by buildListRequest; so are the filtering rules of a
+// oneof field: OneofField is no ScalarSchema, the arm for it in buildListRequest is never reached)
+var canFilter = map[string]bool{"i32": true, "i64": true, "u32": true, "u64": true, "f32": true, "f64": true, "bool": true, "id62": true, "uuid": true, "key": true, "date": true, "dec": true, "ts": true}
+var canSort = map[string]bool{"i32": true, "i64": true, "u32": true, "u64": true, "f32": true, "f64": true, "dec": true, "ts": true}
 var canSearch = map[string]bool{"str": true}
 
 type genCtx struct {
@@ -138,6 +137,12 @@ func (g *genCtx) flags(p *Prop) {
 	if p.T.K == "A" || p.T.K == "M" {
 		return
 	}
+	if p.T.K == "R" && p.T.Sub == "o" && h.Chance(1, 4) {
+		p.Flags += "F" // flattened object field (self- and mutually flattening objects included)
+	}
+	if g.rich && (p.T.K == "R" && p.T.Sub == "u" || p.T.K == "IU") && h.Chance(1, 4) {
+		p.Flags += "f" // compiles, and has no effect on the list request
+	}
 	switch h.Rng.IntN(6) {
 	case 0:
 		p.Flags += "r"
@@ -218,7 +223,11 @@ func genSpec(h *vh.H) *Spec {
 					case 2:
 						t = &Type{K: "M", Elem: t}
 					}
-					sc.Props = append(sc.Props, &Prop{Name: nm[0], T: t})
+					sp := &Prop{Name: nm[0], T: t}
+					if t.K == "R" && h.Chance(1, 3) {
+						sp.Flags = "F" // an object flattening itself
+					}
+					sc.Props = append(sc.Props, sp)
 				}
 			}
 		case "U":
@@ -230,14 +239,39 @@ func genSpec(h *vh.H) *Spec {
 	if len(g.objects) >= 2 && h.Chance(1, 2) { // force a mutual recursion a -> b -> a
 		a, b := s.object(g.objects[0]), s.object(g.objects[1])
 		if n := uniqueFieldNames(h, 1, propNames(a.Props)...); len(n) == 1 {
-			a.Props = append(a.Props, &Prop{Name: n[0], T: &Type{K: "R", Sub: "o", Name: b.Name}})
+			ap := &Prop{Name: n[0], T: &Type{K: "R", Sub: "o", Name: b.Name}}
+			if h.Chance(1, 3) {
+				ap.Flags = "F"
+			}
+			a.Props = append(a.Props, ap)
 		}
 		if n := uniqueFieldNames(h, 1, propNames(b.Props)...); len(n) == 1 {
 			t := &Type{K: "R", Sub: "o", Name: a.Name}
-			if h.Chance(1, 2) {
-				t = &Type{K: "A", Elem: t}
+			bp := &Prop{Name: n[0], T: t}
+			switch h.Rng.IntN(3) {
+			case 0:
+				bp.T = &Type{K: "A", Elem: t}
+			case 1:
+				bp.Flags = "F" // two objects flattening each other
 			}
-			b.Props = append(b.Props, &Prop{Name: n[0], T: t})
+			b.Props = append(b.Props, bp)
+		}
+	}
+
+	if len(g.objects) >= 1 && len(g.oneofs) >= 1 && h.Chance(1, 3) { // recursion through a oneof: object -> oneof -> object
+		a, u := s.object(g.objects[0]), s.schema(g.oneofs[0])
+		if n := uniqueFieldNames(h, 1, propNames(u.Props)...); len(n) == 1 {
+			u.Props = append(u.Props, &Prop{Name: n[0], T: &Type{K: "R", Sub: "o", Name: a.Name}})
+		}
+		if n := uniqueFieldNames(h, 1, propNames(a.Props)...); len(n) == 1 {
+			t := &Type{K: "R", Sub: "u", Name: u.Name}
+			switch h.Rng.IntN(4) {
+			case 1:
+				t = &Type{K: "A", Elem: t}
+			case 2:
+				t = &Type{K: "M", Elem: t}
+			}
+			a.Props = append(a.Props, &Prop{Name: n[0], T: t})
 		}
 	}
 
@@ -319,6 +353,8 @@ func genSpec(h *vh.H) *Spec {
 				p := &Prop{Name: k, T: &Type{K: vh.Pick(h, []string{"id62", "uuid", "key"})}}
 				if i == 0 {
 					p.Flags = "p"
+				} else if h.Chance(1, 2) {
+					p.Flags = "h" // shard key: a path parameter of Get, List and Events
 				}
 				en.Keys = append(en.Keys, p)
 			}
@@ -326,8 +362,35 @@ func genSpec(h *vh.H) *Spec {
 				en.Data = append(en.Data, &Prop{Name: d, T: g.typ(1)})
 			}
 			en.Status = pickN(h, []string{"ACTIVE", "INACTIVE", "DRAFT", "DONE"}, 1+h.Rng.IntN(3))
-			for _, ev := range pickN(h, []string{"Create", "Archive", "Update", "Touch"}, 1+h.Rng.IntN(3)) {
+			nEvents := 1 + h.Rng.IntN(3)
+			if h.Chance(1, 12) {
+				nEvents = 0 // known finding (C17's, visible here as api:err:empty-event-oneof)
+			}
+			for _, ev := range pickN(h, []string{"Create", "Archive", "Update", "Touch"}, nEvents) {
 				en.Events = append(en.Events, &TopicMsg{Name: ev, Props: g.props(h.Rng.IntN(3), 1, false)})
+			}
+			// command services: `commands [Name] { basePath? method… }`
+			cnames := pickN(h, []string{"", "Admin", "Ops", "FooCommand"}, h.Rng.IntN(3))
+			for _, cn := range cnames {
+				if cn != "" && clashes(s, cn) {
+					continue
+				}
+				cs := &Service{Name: cn}
+				if h.Chance(1, 3) {
+					b := vh.Pick(h, []string{"admin", "ops/v2", "x"})
+					cs.Base = &b
+				}
+				for k := 0; k < 1+h.Rng.IntN(2) && len(mnames) > 0; k++ {
+					name := mnames[0]
+					mnames = mnames[1:]
+					if strings.HasPrefix(name, en.Name) {
+						continue
+					}
+					cs.Methods = append(cs.Methods, g.method(name, true))
+				}
+				if len(cs.Methods) > 0 {
+					en.Commands = append(en.Commands, cs)
+				}
 			}
 			s.Entities = append(s.Entities, en)
 		}
@@ -531,6 +594,11 @@ func (g *genCtx) method(name string, hasBase bool) *Method {
 	if h.Chance(5, 6) {
 		m.HasResp = true
 		m.Resp = g.props(h.Rng.IntN(4), 0, false)
+	}
+	if h.Chance(1, 60) && !contains(propNames(m.Req), "query") {
+		// open finding client:err:list-response-shape: a j5.list.v1.QueryRequest property on a method
+		// whose response is (most likely) not list shaped; the compiler accepts it
+		m.Req = append(m.Req, &Prop{Name: "query", T: &Type{K: "X", Pkg: "j5.list.v1", Name: "QueryRequest"}})
 	}
 	return m
 }
